@@ -75,7 +75,7 @@ int qsx_symtab_commands (const char *c)
 		ST_live = 1;
 		return 1;
 	}
-	if (strncmp (c, "st", 2)) return 0;
+	if (strncmp (c, "st", 2)) { extern int qsx_lplex_commands (const char *c); return qsx_lplex_commands (c); }
 	if (!ST_live) { printf ("bad-op no-table\n"); return 1; }
 	if (!strcmp (c, "streg"))
 	{
